@@ -236,6 +236,10 @@ func (c *vCaseC39) observe(t *rapid.T, st *verifkit.Stats, inv vInvC39) bool {
 	}
 	changed := vDiffFilesC39(before, wafter, true) != ""
 	st.Class(fmt.Sprintf("wet_changes[%s]=%v", inv.kind, changed))
+	if changed {
+		// distinct non-trivial invocations are counted one by one
+		st.NonTrivial(fmt.Sprintf("%s %s vmem=%v on %s", inv.kind, inv.desc, e.store != nil, vDigestC39(before)))
+	}
 	if (werr == nil) != (rerr == nil) {
 		st.Class("dry_wet_error_mismatch=" + inv.kind)
 	}
@@ -535,8 +539,8 @@ func (c *vCaseC39) readInvocations(t *rapid.T) []vInvC39 {
 					return runFind(ctx, fo, gopts, args, gopts.Term)
 				})
 		case "diff":
-			a, _ := c.snapArg(t, "dfa")
-			b, _ := c.snapArg(t, "dfb")
+			// diff takes ids (or prefixes), not "latest"
+			a, b := c.pickSnap(t, "dfa").ID().String(), c.pickSnap(t, "dfb").ID().Str()
 			do := DiffOptions{ShowMetadata: rapid.Bool().Draw(t, "dfmeta")}
 			read("diff", fmt.Sprintf("%s %s metadata=%v", a, b, do.ShowMetadata), rapid.Bool().Draw(t, "dfjson"),
 				func(ctx context.Context, gopts global.Options) error {
@@ -597,7 +601,8 @@ func (c *vCaseC39) readInvocations(t *rapid.T) []vInvC39 {
 		case "dump":
 			arg, sn := c.snapArg(t, "dusnap")
 			p := "/"
-			if q, _ := c.somePath(t, sn, "dupath"); q != "" && rapid.IntRange(0, 3).Draw(t, "duroot") != 0 {
+			// a file or a directory (dump refuses symlinks)
+			if q, nd := c.somePath(t, sn, "dupath"); q != "" && nd.Kind != 'l' && rapid.IntRange(0, 3).Draw(t, "duroot") != 0 {
 				p = filepath.ToSlash(filepath.Join(c.src, q))
 			}
 			do := DumpOptions{Archive: rapid.SampledFrom([]string{"tar", "zip"}).Draw(t, "duarch")}
@@ -612,6 +617,9 @@ func (c *vCaseC39) readInvocations(t *rapid.T) []vInvC39 {
 			arg, _ := c.snapArg(t, "resnap")
 			ro := RestoreOptions{Target: c.e.Scratch("restore-"), Verify: rapid.Bool().Draw(t, "reverify"), Sparse: rapid.Bool().Draw(t, "resparse"),
 				DryRun: rapid.IntRange(0, 3).Draw(t, "redry") == 0}
+			if ro.DryRun {
+				ro.Verify = false // mutually exclusive
+			}
 			switch rapid.IntRange(0, 2).Draw(t, "refilter") {
 			case 0:
 				ro.IncludePatternOptions = filter.IncludePatternOptions{Includes: []string{"*.txt"}}
@@ -758,4 +766,13 @@ func TestVerifC39DryRunNoLock(t *testing.T) {
 			st.Sample(map[string]any{"vmem": vmem, "version": version, "snapshots": len(c.sns), "invocations": ds, "wet_variant_changes_repository": nt})
 		}
 	})
+}
+
+func vDigestC39(files map[string][]byte) string {
+	ks := make([]string, 0, len(files))
+	for k := range files {
+		ks = append(ks, k)
+	}
+	sort.Strings(ks)
+	return vSum([]byte(strings.Join(ks, ",")))
 }
